@@ -293,6 +293,8 @@ def run(ck, F):
 
     import c03 as _c03
     _c03.arena_bounds(ck, F, prefix='C19')
+    import c01 as _c01
+    _c01.warehouse_copy(ck, F, 'C19')
     # every String the pool hands out views storage the pool itself owns: one that views the caller's buffer is read (compared,
     # printed) after that buffer has been reused or released
     R8b = ck.rule('C19.owned-bytes', 'every String node created by intern views the arena copy of the word (data and length of one header '
